@@ -290,6 +290,23 @@ func prngNumberLit(r *prng) (string, string) {
 			}
 		}
 		return sb.String(), "long-int"
+	case 9:
+		if r.bool() {
+			return numberPool[r.intn(len(numberPool))], "pool"
+		}
+		// tiny values written without exponent: 0.000...0ddd (up to 340 zeros, so down to subnormals and zero)
+		var sb strings.Builder
+		if r.intn(4) == 0 {
+			sb.WriteByte('-')
+		}
+		sb.WriteString("0.")
+		sb.WriteString(strings.Repeat("0", r.intn([]int{30, 30, 340}[r.intn(3)])))
+		nd := 1 + r.intn(17)
+		sb.WriteByte(byte('1' + r.intn(9)))
+		for i := 1; i < nd; i++ {
+			sb.WriteByte(byte('0' + r.intn(10)))
+		}
+		return sb.String(), "tiny-plain-decimal"
 	default:
 		return numberPool[r.intn(len(numberPool))], "pool"
 	}
